@@ -41,6 +41,7 @@ def setup(ctx):
     ctx.require("monitor", "fetches_with_trouble_after_3x", 8)
     ctx.require("monitor", "fetches_with_derived_targets", 40)
     ctx.require("monitor", "cli_fetches", 30)
+    ctx.require("monitor", "fetches_in_raw_mode", 60)
     ctx.require("monitor", "fetches", 300)
     ctx.require("monitor", "connections_logged", 500)
     ctx.require("monitor", "verify_calls", 500)
@@ -214,9 +215,19 @@ def run_graph(ctx, world, nodes, edges, start, max_redirects, follow, label):
         return orig_verify(db, *a, **k)
 
     TOFUDatabase.verify = verify
+    raw_mode = (max_redirects + len(nodes) + len(label)) % 3 == 1
     try:
         async def go():
-            c = GeminiClient(timeout=6, max_redirects=max_redirects, trust_on_first_use=True, tofu_db_path=Path(os.path.join(tmp, "t.db")))
+            # options that have nothing to do with redirects must not change how they are followed: a third of the
+            # fetches run on a raw-mode client (decode_text=False), some with a client certificate
+            kw = {}
+            if raw_mode:
+                kw["decode_text"] = False
+                ctx.count("monitor", "fetches_in_raw_mode")
+            if (max_redirects + len(label)) % 5 == 2:
+                own = certs.identity("c16-client-identity", "ec")
+                kw.update(client_cert=own.certfile, client_key=own.keyfile)
+            c = GeminiClient(timeout=6, max_redirects=max_redirects, trust_on_first_use=True, tofu_db_path=Path(os.path.join(tmp, "t.db")), **kw)
             if len(nodes) > 1 and (max_redirects + len(nodes)) % 3 == 0:
                 # the client has already been used: an earlier fetch of another node of the same graph
                 # (its own connections are excluded from the count below)
@@ -234,7 +245,7 @@ def run_graph(ctx, world, nodes, edges, start, max_redirects, follow, label):
 
         try:
             resp = asyncio.run(go())
-            res = ("response", resp.status, resp.meta, resp.body)
+            res = ("response", resp.status, resp.meta, resp.body.decode("utf-8", "replace") if isinstance(resp.body, bytes) else resp.body)
         except BaseException as e:  # noqa: BLE001
             res = ("error", type(e).__name__, str(e)[:100])
     finally:
@@ -250,7 +261,7 @@ def run_graph(ctx, world, nodes, edges, start, max_redirects, follow, label):
     ctx.count("monitor", "fetches")
     ctx.count("monitor", "connections_logged", len(conns))
     ctx.count("monitor", "verify_calls", verify_n["n"])
-    wit = {"graph": {f"S{n[0]}/n{n[1]}": [str(x) if not isinstance(x, tuple) else f"S{x[0]}/n{x[1]}" for x in edges[n]] for n in nodes}, "start": f"S{start[0]}/n{start[1]}",
+    wit = {"client_raw_mode": raw_mode, "graph": {f"S{n[0]}/n{n[1]}": [str(x) if not isinstance(x, tuple) else f"S{x[0]}/n{x[1]}" for x in edges[n]] for n in nodes}, "start": f"S{start[0]}/n{start[1]}",
            "max_redirects": max_redirects, "follow": follow, "expected": [str(x) for x in exp], "expected_connections": exp_conns, "result": res,
            "connections": [(c[0], c[1]) for c in conns], "verify_calls": verify_n["n"]}
     sfx = f":max_redirects={max_redirects if max_redirects < 3 else '3+'}"
